@@ -354,7 +354,7 @@ example : ∃ v, first_vel_corrn 1000 (281.8, 79.4) 0 1013.25 none (some 0) none
 theorem fvc_rejects_no_humidity (dist t p : ℝ) (prm : ℝ × ℝ) (wl : Option ℝ) :
     first_vel_corrn dist prm t p none none none wl = .error .ValueError := by
   unfold first_vel_corrn part_h2o_vap_press
-  simp only [truthyO_none, not_false_eq_true, if_true, Option.isNone_none, and_self, Except.bind]
+  simp only [truthyO_none, not_false_eq_true, if_true, if_false, Option.isNone_none, and_self, Except.bind]
 
 /-- C19.4b: the CO₂ (Ciddor) branch is `(n_ref / n_g − 1) · dist`, `n_ref = 1 + C·10⁻⁶`,
 `n_g = 1 + N_g·10⁻⁸`, `N_g` the group refractivity at the ambient atmosphere. -/
